@@ -133,6 +133,12 @@ class Scores:
         """
         self.pos = np.asarray(pos)
         self.neg = np.asarray(neg)
+        # Counts taken from an array are numpy integers of that array's width; the sums
+        # and differences formed with them below must not wrap around.
+        if isinstance(nb_easy_pos, np.integer):
+            nb_easy_pos = int(nb_easy_pos)
+        if isinstance(nb_easy_neg, np.integer):
+            nb_easy_neg = int(nb_easy_neg)
         self.nb_easy_pos = nb_easy_pos
         self.nb_easy_neg = nb_easy_neg
         self.score_class = BinaryLabel(score_class)
